@@ -49,7 +49,13 @@ func (q *UQUICConn) Start(ctx context.Context) error {
 	}
 	q.conn.quic.started = true
 	if q.conn.config.MinVersion < VersionTLS13 {
-		return quicError(errors.New("tls: Config MinVersion must be at least TLS 1.13"))
+		err := errors.New("tls: Config MinVersion must be at least TLS 1.13")
+		// [uTLS] No handshake goroutine will run: record the failure and release
+		// the channels HandleData and Close wait on, so that they return.
+		q.conn.handshakeErr = err
+		close(q.conn.quic.blockedc)
+		close(q.conn.quic.signalc)
+		return quicError(err)
 	}
 	go q.conn.HandshakeContext(ctx)
 	if _, ok := <-q.conn.quic.blockedc; !ok {
